@@ -49,6 +49,14 @@ var globCache = route.NewGlobCache(7)
 
 func pick0(r *route.Route) *route.Target { return r.Targets[0] }
 
+func mustAtoi(s string) int {
+	n, err := strconv.Atoi(s)
+	if err != nil {
+		panic(err)
+	}
+	return n
+}
+
 // ---------- domain classification (mirrors Model.Glob.glob_domain / Model.Lookup.key_domain) ----------
 func printable(s string) bool {
 	for i := 0; i < len(s); i++ {
@@ -109,6 +117,9 @@ func coqDefs(defs []def) string {
 // ---------- generators ----------
 var labels = []string{"a", "b", "1", "ab", "a-b", "x1"}
 var suffixes = []string{"x", "y.x", "foo.com", "b.y.x", "com"}
+
+// low-byte labels: bytes in '!'..'*' and other bytes below the letters
+var lowLabels = []string{"a!", "!", "a$b", "(x)", "a'", "%41", "a*", "1", "a+b", "x,y", "-", "a;b", "a=b", "&"}
 
 func randHost(r *rand.Rand) string {
 	n := r.Intn(3)
@@ -311,6 +322,9 @@ func genRequest(r *rand.Rand, focus, base, tport string) request {
 	case 5:
 		u = strings.ToLower(base) + "/bar"
 	}
+	if r.Intn(12) == 0 { // glob metacharacters in the request path are plain bytes
+		u = []string{base + "/*", "/*", base + "*", "/f?o", base[:1+r.Intn(len(base))] + "?", "/foo/*/baz", "*"}[r.Intn(7)]
+	}
 	tls := r.Intn(4) == 0
 	if tport == ":443" {
 		tls = r.Intn(4) != 0
@@ -380,6 +394,105 @@ func main() {
 		}
 	}
 
+	// 1b. the same with host labels made of low bytes ('!'..'*' sort at or below the glob
+	// metacharacters, digits and '-' below '?')
+	{
+		saved := labels
+		labels = lowLabels
+		for i := 0; i < run.Scale(120, 4000); i++ {
+			defs, focus, base, tport := genTable(r)
+			for k := 0; k < 4; k++ {
+				rq := genRequest(r, focus, base, tport)
+				addLookup("low-byte-hosts", defs, rq, []int{0, 0, 1, 2}[r.Intn(4)], r.Intn(6) == 0)
+			}
+		}
+		labels = saved
+	}
+
+	// 1c. the [n == 0 -> nil] branch of Table.lookup: routes emptied by hand
+	for i := 0; i < run.Scale(60, 1500); i++ {
+		defs, focus, base, tport := genTable(r)
+		ok := true
+		for _, d := range defs {
+			ok = ok && keyDomain(d.Host) && globDomain(d.Path)
+		}
+		t, _, err := buildTable(defs)
+		if !ok || err != nil {
+			continue
+		}
+		var zeros []string
+		for _, rs := range t {
+			for _, rt := range rs {
+				if r.Intn(3) == 0 {
+					zeros = append(zeros, vh.N(mustAtoi(strings.TrimPrefix(rt.Targets[0].Service, "s"))))
+					rt.Targets = nil
+				}
+			}
+		}
+		for k := 0; k < 3; k++ {
+			rq := genRequest(r, focus, base, tport)
+			if !hostDomain(rq.Host) || !printable(rq.URI) {
+				continue
+			}
+			m := []int{0, 1, 2}[r.Intn(3)]
+			off := r.Intn(5) == 0
+			id, panicked, _ := lookupImpl(t, rq, m, off)
+			if panicked {
+				run.Violation(run.NextID(), "Table.Lookup panicked on a table with a target-less route", map[string]interface{}{"host": rq.Host})
+				continue
+			}
+			impl := vh.None
+			if id >= 0 {
+				impl = vh.Some(vh.N(id))
+			}
+			run.Add("targetless-branch", vh.App("CLookupT", coqDefs(defs), vh.List(zeros), vh.HxS(rq.Host), vh.Bool(rq.TLS), vh.HxS(rq.URI), vh.N(m), vh.Bool(off), impl),
+				map[string]interface{}{"emptied": zeros, "host": rq.Host, "path": rq.URI, "selected": id})
+		}
+	}
+
+	// 1d. non-ASCII hosts through Table.Lookup (outside the ASCII model: fixed expectations,
+	// judged on the Go side only)
+	{
+		type na struct {
+			defs []def
+			host string
+			want int
+		}
+		cases := []na{
+			{[]def{{"b\u00fccher.example", "/"}, {"*.example", "/"}, {"", "/"}}, "b\u00fccher.example", 0},
+			{[]def{{"b\u00fccher.example", "/"}, {"*.example", "/"}, {"", "/"}}, "B\u00dcCHER.EXAMPLE", 0},
+			{[]def{{"b\u00fccher.example", "/"}, {"*.example", "/"}, {"", "/"}}, "x.b\u00fccher.example", 1},
+			{[]def{{"*.b\u00fccher.example", "/"}, {"*.example", "/"}, {"*", "/"}}, "x.B\u00fccher.example:80", 0},
+			{[]def{{"*.\u65e5\u672c", "/"}, {"*\u672c", "/"}, {"*", "/"}}, "a.\u65e5\u672c", 0},
+			{[]def{{"?.\u65e5\u672c", "/"}, {"a.\u65e5\u672c", "/"}}, "a.\u65e5\u672c", 1},
+			{[]def{{"B\u00dcCHER.example", "/"}, {"", "/"}}, "b\u00fccher.example", 0},
+			{[]def{{"b\u00fccher.example", "/"}, {"", "/"}}, "bucher.example", 1},
+		}
+		n := 0
+		for _, c := range cases {
+			for _, off := range []bool{false, true} {
+				t, _, err := buildTable(c.defs)
+				if err != nil {
+					continue
+				}
+				id, panicked, _ := lookupImpl(t, request{c.host, false, "/x"}, 0, off)
+				want := c.want
+				if off && strings.ContainsAny(c.defs[want].Host, "*?") { // patterns are literal names with glob matching disabled
+					want = len(c.defs) - 1
+					if c.defs[want].Host != "" {
+						want = -1
+					}
+				}
+				n++
+				if panicked || id != want {
+					run.Violation(-1, fmt.Sprintf("non-ASCII host: Table.Lookup selected route %d, expected %d", id, want),
+						map[string]interface{}{"table": fmt.Sprintf("%q", c.defs), "host": c.host, "glob_disabled": off})
+				}
+			}
+		}
+		run.Notes["non_ascii_lookup_cases_checked"] = n
+	}
+
 	// 2. directed: every ordering clause with two competing routes, both orders of definition
 	type dcase struct {
 		name string
@@ -411,6 +524,9 @@ func main() {
 		{"iprefix-shorter-first-fixed-c1f03c0", []def{{"", "/fo"}, {"", "/Foo"}}, request{"foo.com", false, "/foo/bar"}, 1, false},
 		{"qmark-before-exact-fixed-bc98e3c", []def{{"?.foo.com", "/"}, {"1.foo.com", "/"}}, request{"1.foo.com", false, "/"}, 0, false},
 		{"empty-star-before-exact-fixed-bc98e3c", []def{{"*foo.com", "/"}, {"foo.com", "/"}}, request{"foo.com", false, "/"}, 0, false},
+		{"F3-star-before-longer-suffix-low-byte", []def{{"*.x", "/"}, {"*!.x", "/"}}, request{"a!.x", false, "/"}, 0, false},
+		{"F3-star-before-longer-suffix-low-byte", []def{{"*.y.x", "/"}, {"*(a).y.x", "/"}, {"*", "/"}}, request{"b(a).y.x", false, "/"}, 0, false},
+		{"star-after-longer-suffix-plus", []def{{"*.x", "/"}, {"*+.x", "/"}}, request{"a+.x", false, "/"}, 0, false},
 		{"F3-qmark-before-longer-suffix", []def{{"?.foo.com", "/"}, {"*1.foo.com", "/"}}, request{"1.foo.com", false, "/"}, 0, false},
 		{"F3-qmark-before-longer-suffix", []def{{"?.y.x", "/"}, {"*1.y.x", "/"}, {"*", "/"}}, request{"1.y.x", false, "/"}, 0, false},
 		{"qmark-after-longer-suffix-letter", []def{{"?.y.x", "/"}, {"*b.y.x", "/"}}, request{"b.y.x", false, "/"}, 0, false},
